@@ -96,6 +96,10 @@ def worker(case):
                 L.append("P %s+adv 0 %s l h" % (ln[1], patch_str(ln[2])))
                 L.append("P %s+pin 0 %s T%d D%s l h" % (ln[1], patch_str(ln[2]), p.hash_type, p.header_digest.hex().encode().hex()))
                 L.append("P %s+latepin 0 %s l T%d D%s c h" % (ln[1], patch_str(ln[2]), p.hash_type, p.header_digest.hex().encode().hex()))
+                # the patched image behind a pristine copy of the file in the same descriptor (positioned at the image), and through a pipe
+                L.append("P %s+off 0 %s Foff l h" % (ln[1], patch_str(ln[2])))
+                L.append("P %s+offo 0 %s Foff o" % (ln[1], patch_str(ln[2])))
+                L.append("P %s+pipe 0 %s Fpipe o" % (ln[1], patch_str(ln[2])))
         open(os.path.join(cdir, "cases"), "w").write("\n".join(L) + "\n")
         r = core.run_proc([case["bin"], "cases", "out", "marker", "f0.zck"], cdir, cpu=120, wall=1200)
         if r.timed_out and not r.cpu_exceeded:
@@ -140,14 +144,16 @@ def worker(case):
                 stats["evaluations"] += 1
                 stats["opens_" + (how or "init_read")] = stats.get("opens_" + (how or "init_read"), 0) + 1
                 img = apply_patches(data, ln[2])
-                kind = ln[3] + (":" + {"adv": "lead+header", "pin": "pinned", "latepin": "pinned-after-lead"}[how] if how else "")
+                kind = ln[3] + (":" + {"adv": "lead+header", "pin": "pinned", "latepin": "pinned-after-lead", "off": "behind-a-pristine-copy", "offo": "behind-a-pristine-copy:init_read",
+                                       "pipe": "through-a-pipe"}[how] if how else "")
                 refok = ref_header_ok(img)
                 same_header = img[5:p.header_len] == data[5:p.header_len] and img[:5] in (zckref.MAGIC_FULL, zckref.MAGIC_HDR) and len(img) >= p.header_len
                 if rc == 1 and not refok:
                     viols.append(("c06:opened-although-reference-checksum-differs:%s" % kind, "patch %s opens; reference: header checksum/structure invalid" % patch_str(ln[2])))
                 elif rc == 1 and not same_header:
                     viols.append(("c06:opened-with-different-header-bytes:%s" % kind, "patch %s opens although header bytes differ" % patch_str(ln[2])))
-                elif rc != 1 and same_header and ln[3] in ("control", "magic-swap"):
+                elif rc != 1 and same_header and ln[3] in ("control", "magic-swap") and how != "pipe":
+                    # (through a pipe a read may legitimately come back short and the library then gives up: only acceptance is judged there)
                     viols.append(("c06:valid-header-rejected:%s" % kind, "patch %s rejected although all header bytes are authentic" % patch_str(ln[2])))
                 nontriv.add(core.h8([case["base"], ln[2]]))
                 stats["patched_" + kind] = stats.get("patched_" + kind, 0) + 1
@@ -172,7 +178,7 @@ class C06(core.Check):
     rule = ("sample files (library- and reference-written; 4 lead checksum types, flags, dict/no dict, optional elements, detached headers) x EVERY header "
             "position x all 255 other byte values, on the OpenSSL build and - for headers whose hashed length sweeps the SHA block sizes - on the bundled-SHA build; EVERY header "
             "position x all 255 other byte values through zck_init_read (exhaustive); the same through the two other ways of opening (zck_read_lead + zck_read_header "
-            "step by step; the same with the header pinned to the file's genuine checksum before, or after, the lead is read) for every lead byte of every sample and every header byte of the first "
+            "step by step; the same with the header pinned to the file's genuine checksum before, or after, the lead is read; patched images also behind a pristine copy of the file in the same descriptor and through a pipe) for every lead byte of every sample and every header byte of the first "
             "samples; plus patched images through all three ways: single-byte insertions/deletions with the header-size field adjusted, truncations inside the "
             "header, every integer field re-encoded in a longer form with the same value, stored-checksum transplants, identifier swap and untouched controls. "
             "distinct = (file, position) for substitutions, (file, patch) otherwise")
